@@ -56,6 +56,11 @@ def enumerated(tier, seed):
         for qs in ([b], [a], [c, b], [d, a, b], [a, a], [c, d]):
             yield dict(p=p, qs=qs, fresh=True)
         yield dict(p=[l[:-1] + "\r\n" for l in p], qs=[a], fresh=True)       # CR LF line ends: the list must come back untouched
+    # first lines as odd files deliver them (a byte order mark, a DOS end-of-file mark, a tab, trailing blanks, no line
+    # end on the last line): accepted or refused, the list must come back untouched and repeated runs must agree
+    for first in ("\ufeff ORG $1000\n", "\ufeffL0 LDA #1\n", "\ufeff\n", "\x1a\n", "\t ORG $1000\n", " ORG $1000   \n", "\n"):
+        yield dict(p=[first, "L1 LDA #1\n", " BRA L1\n"], qs=[a], fresh=False)
+        yield dict(p=[first, "L1 LDA #1\n", " BRA L1"], qs=[], fresh=False)
     # characters that str.splitlines treats as line ends but a text file read line by line does not, in a comment and in
     # a string: the fresh assembler.py process must see the same lines as the warm one
     for ch in ("\x0b", "\x0c", "\x1c", "\x1d", "\x1e", "\x85", "\u2028", "\u2029"):
